@@ -160,6 +160,36 @@ func monC02(c *ctx, w *hWorld, pre *worldSnap, sr *stepResult, hist []string) {
 		if len(a) >= 2 {
 			aliased = tkAliased(sr.Res.Pre, cs.Caller, []tkItem{{Tok: a[0], Nonce: tkU64(a[1])}})
 		}
+	case "ESDTNFTCreateRoleTransfer":
+		// no balance moves - but "a fresh nonce" of the NEXT create rests on the counter travelling with the role: at the current holder
+		// (caller = system contract) a new holder on the same shard must end up with the old holder's counter; at the next holder
+		// (delivery) with the counter the message carries - whatever roles it already had
+		class = "non-supply"
+		counterOf := func(accts map[string]*hAccount, addr []byte, tok []byte) uint64 {
+			if acc, ok := accts[string(addr)]; ok {
+				return tkU64(acc.storage[string(noncePrefix)+string(tok)])
+			}
+			return 0
+		}
+		if len(a) >= 2 {
+			post := w.shards[S].accounts
+			switch {
+			case bytes.Equal(cs.Caller, vmcommon.ESDTSCAddress):
+				if w.shardOf(a[1]) == S && !bytes.Equal(a[1], cs.Rcpt) {
+					if was, now := counterOf(sr.Res.Pre, cs.Rcpt, a[0]), counterOf(post, a[1], a[0]); now != was {
+						c.fail("monitor", "supply/ESDTNFTCreateRoleTransfer/counter-not-handed-over",
+							fmt.Sprintf("hand-over of %q from %x (counter %d) to %x on the same shard: the new holder's counter is %d, its next create re-issues an existing nonce", a[0], cs.Rcpt, was, a[1], now), tkReplay(sr, hist))
+						return
+					}
+				}
+			case !cs.Snd:
+				if carried, now := tkU64(a[1]), counterOf(post, cs.Rcpt, a[0]); now != carried {
+					c.fail("monitor", "supply/ESDTNFTCreateRoleTransfer/counter-not-handed-over",
+						fmt.Sprintf("delivery of the hand-over of %q to %x: the message carries counter %d, the new holder's counter is %d", a[0], cs.Rcpt, carried, now), tkReplay(sr, hist))
+					return
+				}
+			}
+		}
 	default:
 		class = "non-supply"
 	}
